@@ -17,7 +17,7 @@ theorem PTDP_header_robust (s t : PTDP.State) (h : PTDP_WF s) (e1 e2 : Nat) (he1
     ∃ b, (PTDP.pack s).2 = .ok b ∧
       PTDP.unpack t (corruptPTDP b e1 e2 ++ rest) = PTDP.unpack t (b ++ rest) ∧
       PTDP.unpack t (b ++ rest) =
-        ({ s with length := s.payload.length, low_latency := t.low_latency }, .ok rest) := by
+        ({ s with length := s.payload.length, low_latency := false }, .ok rest) := by
   refine ⟨_, by rw [ptdp_pack_eq s h], ?_, ?_⟩
   · rw [corruptPTDP_eq]
     simp only [List.append_assoc]
